@@ -1321,6 +1321,8 @@ def str_method(eng, recv, name, args, s):
         return [(s, mk_bool(z3.SuffixOf(args[0].t, recv.t)))]
     if name == "find":
         return [(s, SV(INT, z3.IndexOf(recv.t, args[0].t, 0)))]
+    if name == "rfind":
+        return [(s, SV(INT, z3.LastIndexOf(recv.t, args[0].t)))]
     if name == "strip" or name == "lower" or name == "upper":
         f = eng.reg.ufun("str_" + name, z3.StringSort(), z3.StringSort())
         return [(s, SV(STR, f(recv.t)))]
